@@ -517,7 +517,13 @@ macro_rules! impl_ind {
                 impl_ind!(@mult $mult, self)
             }
             fn ser(&self) -> Result<Vec<u8>, String> {
-                bincode::serialize(self).map_err(|e| e.to_string())
+                // a checkpoint that fails half-way (the writer runs out of room) must leave nothing behind
+                // that shows in the next one: first into a 3-byte buffer, then in a single pass into a Vec
+                let mut tiny = [0u8; 3];
+                let _ = bincode::serialize_into(&mut tiny[..], self);
+                let mut v = Vec::new();
+                bincode::serialize_into(&mut v, self).map_err(|e| e.to_string())?;
+                Ok(v)
             }
             fn ser_size(&self) -> Result<u64, String> {
                 bincode::serialized_size(self).map_err(|e| e.to_string())
@@ -529,6 +535,18 @@ macro_rules! impl_ind {
                 let (bx, by) = (bincode::serialize(&x).map_err(|e| e.to_string())?, bincode::serialize(&y).map_err(|e| e.to_string())?);
                 if bx != by {
                     return Err("deserialize(slice) and deserialize_from(reader) restore different states".to_string());
+                }
+                // the impls must not depend on one encoder configuration: the restored value goes through bincode's
+                // variable-length integer / big-endian options once more and must come back as the same state
+                {
+                    use bincode::Options;
+                    let o = bincode::options().with_varint_encoding().with_big_endian();
+                    let vb = o.serialize(&x).map_err(|e| format!("serialize (varint, big-endian): {}", e))?;
+                    let z: $ty = o.deserialize(&vb).map_err(|e| format!("deserialize of its own bytes (varint, big-endian options): {}", e))?;
+                    let bz = bincode::serialize(&z).map_err(|e| e.to_string())?;
+                    if bz != bx {
+                        return Err("a round trip through bincode's varint / big-endian options restores a different state".to_string());
+                    }
                 }
                 Ok(Box::new(x))
             }
@@ -812,6 +830,10 @@ pub struct Inst {
     panics: u64,
     /// when Some, every call is appended (call recorded before invocation, result after return)
     pub trace: Option<Vec<Event>>,
+    /// siblings kept alive: after a clone-swap the *original* stays around (up to three of them), as it does in
+    /// a program that forks an indicator and goes on with the copy. They are never fed again; whatever the copy
+    /// does (reset included) must not depend on their being there.
+    kept: Vec<Box<dyn Ind>>,
 }
 
 impl Drop for Inst {
@@ -849,7 +871,7 @@ impl Inst {
     pub fn try_new_explicit(p: &Params) -> Result<Inst, NewError> {
         TOTAL_INSTANCES.fetch_add(1, Ordering::Relaxed);
         match guarded(|| construct_raw(p)) {
-            Ok(Ok(ind)) => Ok(Inst { params: *p, ind, calls: 1, panics: 0, trace: None }),
+            Ok(Ok(ind)) => Ok(Inst { params: *p, ind, calls: 1, panics: 0, trace: None, kept: Vec::new() }),
             Ok(Err(e)) => Err(NewError::Invalid(format!("{:?}", e))),
             Err(Panicked(m)) => {
                 TOTAL_PANICS.fetch_add(1, Ordering::Relaxed);
@@ -866,7 +888,7 @@ impl Inst {
     pub fn new_default(kind: Kind) -> Result<Inst, Panicked> {
         TOTAL_INSTANCES.fetch_add(1, Ordering::Relaxed);
         let ind = guarded(|| construct_default_raw(kind))?;
-        Ok(Inst { params: kind.default_params(), ind, calls: 1, panics: 0, trace: None })
+        Ok(Inst { params: kind.default_params(), ind, calls: 1, panics: 0, trace: None, kept: Vec::new() })
     }
     pub fn traced(mut self) -> Inst {
         self.trace = Some(Vec::new());
@@ -983,7 +1005,7 @@ impl Inst {
         let ok = r.is_ok();
         self.record(|| Op::Clone, || if ok { Res::Unit } else { Res::Panic("clone".into()) });
         match r {
-            Ok(b) => Ok(Inst { params: self.params, ind: b, calls: 0, panics: 0, trace: self.trace.clone() }),
+            Ok(b) => Ok(Inst { params: self.params, ind: b, calls: 0, panics: 0, trace: self.trace.clone(), kept: Vec::new() }),
             Err(p) => {
                 self.panics += 1;
                 Err(p)
@@ -1085,7 +1107,7 @@ impl Inst {
         TOTAL_INSTANCES.fetch_add(1, Ordering::Relaxed);
         let ind = self.ind.as_ref();
         match guarded(|| ind.de(bytes)) {
-            Ok(Ok(b)) => Ok(Inst { params: self.params, ind: b, calls: 0, panics: 0, trace: self.trace.clone() }),
+            Ok(Ok(b)) => Ok(Inst { params: self.params, ind: b, calls: 0, panics: 0, trace: self.trace.clone(), kept: Vec::new() }),
             Ok(Err(e)) => Err(Panicked(format!("deserialize error: {}", e))),
             Err(p) => {
                 self.panics += 1;
@@ -1110,7 +1132,7 @@ impl Inst {
         TOTAL_INSTANCES.fetch_add(1, Ordering::Relaxed);
         let ind = self.ind.as_ref();
         match guarded(|| ind.de_json(s)) {
-            Ok(Ok(b)) => Ok(Inst { params: self.params, ind: b, calls: 0, panics: 0, trace: self.trace.clone() }),
+            Ok(Ok(b)) => Ok(Inst { params: self.params, ind: b, calls: 0, panics: 0, trace: self.trace.clone(), kept: Vec::new() }),
             Ok(Err(e)) => Err(Panicked(format!("json deserialize error: {}", e))),
             Err(p) => {
                 self.panics += 1;
@@ -1130,6 +1152,13 @@ impl Inst {
     pub fn clone_swap(&mut self) -> Result<(), Panicked> {
         let mut c = self.try_clone()?;
         std::mem::swap(&mut self.ind, &mut c.ind);
+        // c.ind is now the original: keep it alive next to the copy
+        let placeholder = self.ind.clone_box();
+        let original = std::mem::replace(&mut c.ind, placeholder);
+        if self.kept.len() >= 3 {
+            self.kept.remove(0);
+        }
+        self.kept.push(original);
         self.record(|| Op::CloneSwap, || Res::Unit);
         Ok(())
     }
